@@ -212,6 +212,47 @@ def memberLens (all : List Member) (allv : List Val) : List Member → List Val 
      | _, _ => 0) :: memberLens all allv r vs
   | _, _ => []
 
+/-- offset (from the struct start) at which each member's own encoding begins, given the members'
+    byte lengths `memberLens` -/
+def memberStarts : List Member → List Nat → Nat → Bool → List Nat
+  | m :: r, l :: ls, off, afterDyn =>
+    let a := if afterDyn then blockAlign (m :: r) else alignMember m
+    let s := off + padTo off a
+    s :: memberStarts r ls (s + l) (endsBlock m)
+  | _, _, _, _ => []
+
+/-! ### Offsets of members relative to the start of their block (the struct start for the first
+    block; every later block starts at an address aligned to the greatest alignment of its
+    fields, so offsets inside it do not depend on the dynamic data before it). -/
+
+/-- offsets inside one run of members laid out from offset `off`: the flag of an optional is
+    `has_<name>`, its value `<name>` follows after the flag padded to the value's alignment -/
+def runOffsets : List Member → Nat → List (String × Nat)
+  | [], _ => []
+  | .mk n t k :: r, off =>
+    let o := alignUp off (alignMember (.mk n t k))
+    match k with
+    | .optional =>
+      ("has_" ++ n, o) :: (n, o + max flagSize (alignTy t)) ::
+        runOffsets r (o + max flagSize (alignTy t) + sizeTy t)
+    | .fixed c => (n, o) :: runOffsets r (o + c * sizeTy t)
+    | .limited _ c => (n, o) :: runOffsets r (o + c * sizeTy t)
+    | .plain => (n, o) :: runOffsets r (o + sizeTy t)
+    | _ => (n, o) :: runOffsets r o
+
+/-- split after every member that ends a block, except after the last member -/
+def blocks : List Member → List (List Member)
+  | [] => [[]]
+  | [m] => [[m]]
+  | m :: m' :: r =>
+    if endsBlock m then [m] :: blocks (m' :: r)
+    else match blocks (m' :: r) with
+      | [] => [[m]]
+      | b :: bs => (m :: b) :: bs
+
+def blockOffsets (ms : List Member) : List (List (String × Nat)) :=
+  (blocks ms).map fun b => runOffsets b 0
+
 /-! ### "a greedy array whose tail does not end on the enclosing message's alignment
     boundary" is the documented exception of the round-trip guarantee: trailing
     padding is indistinguishable from elements.  `galTy t v` says that no padding
